@@ -72,6 +72,13 @@ var lineFaults = []faultKind{
 	{"unknown-function-after-newline", "{{ 5\n.nofn() }}", true, 1},
 	{"unknown-property-after-newline", "{{ {a: 1}\n.b }}", true, 1},
 	{"each-non-array-after-newline", "@each(q in\n\n 5)x@end", true, 0},
+	{"unknown-function-on-object-after-newlines", "{{ {a: 1}\n\n.nofn() }}", true, 2},
+	{"unknown-function-on-nil-after-newline", "{{ nil\n.nofn(1) }}", true, 1},
+	{"unknown-function-on-object-chain", "{{ {a: {b: 1}}\n.a\n.nofn() }}", true, 2},
+	{"unknown-property-in-chain", "{{ {a: {b: 1}}\n.a\n.c }}", true, 2},
+	// an unclosed string runs to the end of the input: its token ends on the line of the last byte
+	{"unclosed-string-to-end-of-input", "{{ \"never closed", false, -1},
+	{"unclosed-single-quoted-string-to-end-of-input", "@if('never closed", false, -1},
 }
 
 type wrapper struct{ name, open, close string }
@@ -98,6 +105,14 @@ func buildLineCase(preludes []int, w wrapper, f faultKind, lead string) (string,
 	sb.WriteString(" tail\nafter\n")
 	sb.WriteString(w.close)
 	sb.WriteString("\nlast {{ 3 }}\n")
+	if f.offset < 0 {
+		// the line of the last byte of the input (a final newline belongs to the line it ends)
+		src := sb.String()
+		line = strings.Count(src, "\n")
+		if !strings.HasSuffix(src, "\n") {
+			line++
+		}
+	}
 	return sb.String(), line
 }
 
@@ -252,6 +267,11 @@ func lineTreeCase(c *core.Ctx, i int) {
 	}
 	v := variants[i%len(variants)]
 	f := v.faults[r.Intn(len(v.faults))]
+	for f.offset < 0 {
+		f = v.faults[r.Intn(len(v.faults))] // faults that run to the end of input do not fit the tree builders
+	}
+	// the page may be nested and its name may end in the text of the extension
+	pageName := []string{"page", "sub/deep/page", "changelog.tw", "mail/digest.tw.html"}[(i/96)%4]
 	pre := prelude()
 	content, line := v.content(f.src, pre)
 	line += f.offset
@@ -264,7 +284,17 @@ func lineTreeCase(c *core.Ctx, i int) {
 	// the files are written with the configured extension
 	renamed := map[string]string{}
 	for k, content := range files {
-		renamed[strings.TrimSuffix(k, ".tw")+ext] = content
+		base := strings.TrimSuffix(k, ".tw")
+		if base == "page" {
+			base = pageName
+		}
+		renamed[base+ext] = content
+	}
+	if v.file == "page.tw" {
+		v.file = pageName + ".tw"
+	}
+	if v.render == "page" {
+		v.render = pageName
 	}
 	files = renamed
 	os.MkdirAll("x13", 0o755)
